@@ -612,8 +612,15 @@ func c16After(rc *RunCtx, res *simrt.Result) {
 						viol("late-flush-size", fmt.Sprintf("pack #%d: buffer reached %d >= limit %d after record %d but %d more records were appended", e.Seq, cum, d.MaxBuf, ids[i], len(ids)-1-i))
 						break
 					}
-					if _, hi := waitLoHi(e.Stamp); i > 0 && times[0] != 0 && times[i]-times[0] >= hi {
-						viol("late-flush-age", fmt.Sprintf("pack #%d: record %d is %d ms younger than the first buffered record (wait %d ms) but the batch was not flushed at its append", e.Seq, ids[i], times[i]-times[0], d.WaitMs))
+					_, hi := waitLoHi(e.Stamp)
+					// a record whose Add began after the reload had returned is appended under the
+					// reloaded waiting time, whenever its batch was opened
+					if r := d.byID[ids[i]]; r != nil && d.Wait2 != 0 && d.ReconfRet != 0 && r.Call > d.ReconfRet {
+						hi = d.Wait2
+						rc.Probe("append_after_reload_in_open_batch")
+					}
+					if i > 0 && times[0] != 0 && times[i]-times[0] >= hi {
+						viol("late-flush-age", fmt.Sprintf("pack #%d: record %d is %d ms younger than the first buffered record (wait in force at its append %d ms) but the batch was not flushed at its append", e.Seq, ids[i], times[i]-times[0], hi))
 						break
 					}
 				}
